@@ -135,7 +135,10 @@ fn check(def: &DefSpec, run: &mut Run) -> Result<(), String> {
     if g.leaves.len() != r.pats.len() {
         return Err(format!("leaf count mismatch {} vs {}", g.leaves.len(), r.pats.len()));
     }
-    let prio: Vec<usize> = g.leaves.iter().map(|l| l.priority).collect();
+    // explicit priorities as written in the definition (that they arrive unchanged is C09's clause; a tie verdict computed
+    // from altered values would agree with the derive about a tie that the definition does not contain), defaults as captured
+    let written = def.leaves();
+    let prio: Vec<usize> = g.leaves.iter().enumerate().map(|(i, l)| written[i].0.priority.unwrap_or(l.priority)).collect();
     let t = reference_ties(&r, &prio, 30000);
     if t.capped {
         run.count("product_capped(inconclusive)", 1);
